@@ -218,11 +218,30 @@ def src(t, mode="min", rng=None, scope_names=None):
     return go(t)
 
 
-def js_ref(t, scope_names=None, concat_spread=False):
+def js_ref_hoisted(t, scope_names=None, concat_spread=False):
+    """The reference with the generator's documented evaluation ORDER: every dynamic index expression and every
+    left operand of ?? is evaluated once, before the expression itself (so it is evaluated even when a
+    short-circuiting operator or conditional would have skipped it)."""
+    hoist = []
+    e = js_ref(t, scope_names, concat_spread, hoist)
+    return "(function(){" + "".join(f"var {n}={v};" for n, v in hoist) + "return " + e + "})()"
+
+
+def js_ref(t, scope_names=None, concat_spread=False, hoist=None):
     """Reference JavaScript for the INTENDED tree: native operators, fully parenthesised; member reads via
     M(o,k) (null-safe), calls via CALL(f,...args) (non-function -> undefined), data fields read from D."""
     k = t[0]
-    r = lambda x: js_ref(x, scope_names, concat_spread)
+    r = lambda x: js_ref(x, scope_names, concat_spread, hoist)
+    if hoist is not None and k == "dmember":
+        idx = r(t[2])
+        name = f"$h{len(hoist)}"
+        hoist.append((name, idx))
+        return f"M({r(t[1])},{name})"
+    if hoist is not None and k == "bin" and BINOPS[t[1]][0] == "??":
+        left = r(t[2])
+        name = f"$h{len(hoist)}"
+        hoist.append((name, left))
+        return "(" + name + " ?? " + r(t[3]) + ")"
     if k == "scope":
         return (scope_names[t[1]] if scope_names else f"s{t[1]}")
     if k == "data":
